@@ -169,9 +169,18 @@ func e1Test(t *testing.T, prop string) {
 	}
 	one := func(p Program, cj []byte, fatal func(string, ...any)) {
 		rec.Begin(cj)
+		t0 := time.Now()
 		o := Run(p, dir)
+		if os.Getenv("VERIF_DEBUG_TIMES") != "" {
+			fmt.Fprintf(os.Stderr, "%s CASE ops=%d mem=%d block=%d run=%.2fs classes=%v counts=%v\n", time.Now().Format("15:04:05"), len(p.Ops), p.Cfg.MemThreshold, p.Cfg.Block, time.Since(t0).Seconds(), len(o.Classes), o.Counts)
+		}
+		t1 := time.Now()
 		classifyHistory(o)
+		t2 := time.Now()
 		checkHistory(prop, o)
+		if os.Getenv("VERIF_DEBUG_TIMES") != "" && time.Since(t1) > time.Second {
+			fmt.Fprintf(os.Stderr, "SLOWHIST hist=%d classify=%.2fs check=%.2fs\n", len(o.Hist), t2.Sub(t1).Seconds(), time.Since(t2).Seconds())
+		}
 		var classes []string
 		for c := range o.Classes {
 			classes = append(classes, c)
